@@ -208,6 +208,15 @@ def dim_count_mutations(rng, hint):
             "size_biased": bool(rng.random() < 0.5)}
 
 
+def dim_lik(rng, hint):
+    n = int(rng.integers(2, 8))
+    T = _mag(rng, -2, 4)
+    dt = np.sort(rng.random(n)) * T + (0.0 if rng.random() < 0.5 else 1e-6 * T)
+    span = _mag(rng, 0, 5)
+    return {"muts": float(rng.integers(0, 6)), "span": span, "dt": dt.tolist(),
+            "mutation_rate": float(rng.uniform(0.1, 5)) / (T * span), "standardize": bool(rng.random() < 0.5)}
+
+
 def dim_approx(rng, hint):
     """arguments for every EP update of approx.py, keyed by the parameter naming convention of that file"""
     r = _mag(rng, -3, 3)
